@@ -421,6 +421,9 @@ def _build_flow_proposal(case, model, out):
         cls = AugmentedFlowProposal
         kw["augment_dims"] = int(case["augment_dims"])
         kw["generate_augment"] = case["generate_augment"]
+        if "marginalise_augment" in case:  # part C (vf/c09_marg.py)
+            kw["marginalise_augment"] = bool(case["marginalise_augment"])
+            kw["n_marg"] = int(case["n_marg"])
     else:
         cls = FlowProposal
     fp = _nessai(cls.__name__ + ".__init__", case, cls, model, **kw)
